@@ -17,7 +17,7 @@ def decBytes (t : String) : Option (List UInt8) :=
 def encBytes (bs : List UInt8) : String := if bs.isEmpty then "-" else bytesToHex bs
 
 def showOut : Out → String
-  | .probe st fs off => s!"{st}:{",".intercalate (fs.map encStr)}@{off}"
+  | .probe st fs off nb => s!"{st}:{",".intercalate (fs.map encStr)}@{off}{if nb then "!nb" else ""}"
   | .raw bs => "L" ++ encBytes (if endsNL bs then bs.dropLast else bs)
 
 def decAll : List String → Option (List (List UInt8))
@@ -31,7 +31,10 @@ def runLine (line : String) : String :=
   match words line with
   | feed :: dataT :: unitTs =>
     let feedOk : Bool := feed == "str" || feed == "file" || feed == "script" ||
+      feed == "real:nb" || feed == "real:bl" ||
       (match feed.splitOn ":" with
+       | ["nbpipe", p, sz] => p.toNat?.isSome && !(sz.splitOn ",").isEmpty &&
+                              (sz.splitOn ",").all (fun t => (t.toNat?.getD 0) > 0)
        | ["pipe", p, sz] => p.toNat?.isSome && !(sz.splitOn ",").isEmpty &&
                             (sz.splitOn ",").all (fun t => (t.toNat?.getD 0) > 0)
        | _ => false)
@@ -43,11 +46,14 @@ def runLine (line : String) : String :=
       let shared := feed != "str" && !fileSrc
       let chunks : Option (List (List UInt8)) :=
         match feed.splitOn ":" with
-        | ["pipe", _, sz] =>
+        | ["pipe", _, sz] | ["nbpipe", _, sz] =>
           let sizes := (sz.splitOn ",").filterMap String.toNat?
           some (chunksOf sizes (script.length + 1) 0 script)
         | _ => none
-      let r := if fileSrc then runFile script data else run shared script data
+      -- a pipe inherited in non-blocking mode (`nbpipe:…`, `real:nb`)
+      let nb := feed.startsWith "nbpipe" || feed == "real:nb"
+      let r := if fileSrc then runFile script data else if nb then runPipe true script
+               else run shared script data
       let showObs (out : List Out) (status : Nat) (o : Outcome) (echo : List UInt8) : String :=
         let tr := "|".intercalate (out.reverse.map showOut)
         match o with
@@ -59,7 +65,8 @@ def runLine (line : String) : String :=
       -- Spec column: a violated clause of the Spec on the model's own run, else the prediction of
       -- the line-by-line reference reader
       let verdict := check fileSrc shared script data prefixes chunks r
-      let sp := if fileSrc then specRunFile script data else specRun shared script data
+      let sp := if fileSrc then specRunFile script data else if nb then specRunPipe true script
+                else specRun shared script data
       obs ++ "\t" ++ (if verdict != "ok" then verdict
                       else "=" ++ showObs sp.1.out sp.1.status sp.2 sp.1.echo)
     | _, _ => "bad-case\t-"
